@@ -19,20 +19,20 @@ TRUSTED = ["httpx.Response.aiter_lines() yields splitlines(decode(concatenated b
            "json.loads is a deterministic function of its argument"]
 
 
-def _mk_response(chunks):
+def _mk_response(chunks, content_type="text/event-stream; charset=utf-8"):
     import httpx
 
     class S(httpx.AsyncByteStream):
         async def __aiter__(self):
             for c in chunks:
                 yield c
-    return httpx.Response(200, stream=S(), headers={"content-type": "text/event-stream; charset=utf-8"})
+    return httpx.Response(200, stream=S(), headers={"content-type": content_type})
 
 
-def _collect(helper, chunks):
+def _collect(helper, chunks, content_type="text/event-stream; charset=utf-8"):
     async def go():
         out = []
-        async for x in helper(_mk_response(chunks)):
+        async for x in helper(_mk_response(chunks, content_type)):
             out.append(x)
         return out
     return asyncio.run(go())
@@ -184,6 +184,24 @@ def bounded_helpers_chunked(tier, seed):
             if got != ref:
                 failures.append({"id": "bounded:iter_ndjson:reference", "detail": f"{got} != {ref}", "input": {"stream": s, "chunks": [c.hex() for c in ch]}})
                 break
+    # the record stream under every line-delimited JSON media type (RFC 7464 bodies carry an RS in front of each record), strings with blanks next to
+    # every possible chunk boundary: the records do not depend on the media type's spelling nor on the chunking
+    for media in ("application/x-ndjson", "application/jsonl", "application/jsonlines", "application/json-seq", "application/json-seq; charset=utf-8"):
+        rs = "\x1e" if "json-seq" in media else ""
+        for recs in ([{"t": "a b"}, 7], [["p q "], {"k": " é\u3000ü"}]):
+            for nl in ("\n", "\r\n"):
+                text = "".join(rs + json.dumps(r, ensure_ascii=False) + nl for r in recs)
+                data = text.encode("utf-8")
+                for ch in _chunkings(data, min(cap, 80), rnd):
+                    n += 1
+                    try:
+                        got = _collect(sh.iter_ndjson, ch, media)
+                    except Exception as e:  # noqa
+                        got = f"{type(e).__name__}: {e}"
+                    if got != recs:
+                        failures.append({"id": f"bounded:iter_ndjson:media-type:{media.split(';')[0].split('/')[1]}", "detail": f"{media}: {got} != {recs}",
+                                         "input": {"stream": text, "chunks": [c.hex() for c in ch], "content_type": media}})
+                        break
     data = "abc\r\néé".encode()
     for ch in _chunkings(data, cap, rnd):
         n += 1
